@@ -277,7 +277,7 @@ func CheckC05(run *evid.Run) {
 		o2.Failures = i%2 == 1
 		o2.Bursts = i%3 == 0
 		o2.Extra = i%4 == 1 // identity changes and rebuilds from storage
-		o2.Truncated = i%5 == 4
+		o2.Truncated = i%5 == 4 && !o2.Extra // (logs with gaps are never rebuilt without a limit: see C02)
 		o2.SubsetForks = true
 		h := hx.Gen(run.Seed, i, o2)
 		x := hx.NewExec(h)
